@@ -61,7 +61,7 @@ def gen(rng, tier, index):
         elif rng.random() < 0.45:
             script.append({"o": "ok", "d": rng.choice(DGRID), "life": rng.choice(LIFE)})
         else:
-            script.append({"o": "fail", "d": rng.choice(DGRID)})
+            script.append({"o": "fail", "d": rng.choice(DGRID), "exc": rng.choice(["OSError", "OSError", "TimeoutError", "RuntimeError", "ValueError"])})
     yield {
         "kind": "manager",
         "script": script,
